@@ -244,7 +244,27 @@ bool Exec<Cfg>::run_real(Op const& op) {
 			constexpr int D = decltype(Dc)::value;
 			Arr<D>&       a = pool<D>().at(op.a);
 			switch(op.kind) {
-			case O_ASSIGN_COPY: { Arr<D> const& b = pool<D>().at(op.b); OpScope s; a = b; } break;
+			case O_ASSIGN_COPY:
+				if(op.var == 1) {  // the source has index base 1 in every dimension (restored below): "extents ... equal the source's" includes the bases,
+					// also when the sizes of target and source agree (seeded C04-r7-m2)
+					if constexpr(!Cfg::static_arrays) {
+						Arr<D>& b = pool<D>().at(op.b);
+						reindex_all<D>(b, 1);
+						struct Restore {
+							Arr<D>& a;
+							Arr<D>& b;
+							~Restore() {
+								reindex_all<D>(b, 0);
+								if(a.num_elements() != 0 && a.extension().first() != 0) reindex_all<D>(a, 0);
+							}
+						} restore{a, b};
+						{ OpScope s; a = static_cast<Arr<D> const&>(b); }
+						bool bases_ok = a.num_elements() != 0;
+						for(int k = 0; k < D && bases_ok; ++k) bases_ok = static_cast<int>(a.extension(k).first()) == 1;
+						if(!bases_ok) fail("I4-extents", "after copy assignment the target does not have the index base (1) of its source");
+					} else handled = false;
+				} else { Arr<D> const& b = pool<D>().at(op.b); OpScope s; a = b; }
+				break;
 			case O_ASSIGN_MOVE: { Arr<D>& b = pool<D>().at(op.b); OpScope s; a = std::move(b); } break;
 			case O_SWAP: {
 				Arr<D>& b = pool<D>().at(op.b);
@@ -468,7 +488,10 @@ bool Exec<Cfg>::run_real(Op const& op) {
 					for(long n = 0; n < cnt; ++n) {
 						if(op.var == 1) *(els.begin() + n) = e[static_cast<std::size_t>(n)];
 						else if(op.var == 2) { auto it = els.begin(); it += n; *it = e[static_cast<std::size_t>(n)]; }
-						else els[n] = e[static_cast<std::size_t>(n)];
+						else if(op.var == 3) els[n] = e[static_cast<std::size_t>(n)];
+						else if(op.var == 4) *(els.end() - (cnt - n)) = e[static_cast<std::size_t>(n)];  // counted back from end(): the idiomatic end() - 1
+						else if(op.var == 5) { auto it = els.end(); it -= (cnt - n); *it = e[static_cast<std::size_t>(n)]; }
+						else { auto it = els.begin(); auto const jt = els.begin() + n; it = jt; *it = e[static_cast<std::size_t>(n)]; }  // an assigned iterator designates what its source designates
 					}
 				}
 				break;
